@@ -10,7 +10,7 @@
 From Coq Require Import ZArith QArith Qcanon List Bool.
 From Coq Require Import PrimFloat.
 From PV Require Import Model.Base Model.Wave Model.WaveQ.
-From PV Require Import Proofs.Wave Proofs.WaveIdx Proofs.WaveQ Proofs.WaveF.
+From PV Require Import Proofs.Wave Proofs.WaveIdx Proofs.WaveQ Proofs.WaveF Proofs.WaveFK.
 Import ListNotations.
 
 (** ** every waveform has exactly [duration] samples (all classes, all durations) *)
@@ -168,6 +168,25 @@ Theorem C16_kaiser_short_post :
                    (m <= maxv)%Qc -> (m <= mvb')%Qc).
 Proof. exact ks_short_post_Q. Qed.
 Print Assumptions C16_kaiser_short_post.
+
+(** "as close to max_val as whole nanoseconds allow" FAILS on the double
+    instance in two hair-line situations (real numpy windows in [E_fmv]) *)
+Theorem C16_blackman_from_max_val_closest_refuted :
+  bm_from_max_val FN E_fmv 100 bm_maxv bm_area = Ok (WWin KBlackman 12 bm_area zero) /\
+  PrimFloat.leb (peak_of E_fmv (WWin KBlackman 11 bm_area zero)) bm_maxv = true /\
+  PrimFloat.ltb (peak_of E_fmv (WWin KBlackman 12 bm_area zero))
+                (peak_of E_fmv (WWin KBlackman 11 bm_area zero)) = true.
+Proof. exact blackman_from_max_val_closest_refuted. Qed.
+Print Assumptions C16_blackman_from_max_val_closest_refuted.
+
+Theorem C16_kaiser_from_max_val_exact_hit_refuted :
+  ks_from_max_val FN E_fmv 100 ks_maxv ks_area ks_beta = Ok (WWin KKaiser 197 ks_area ks_beta) /\
+  (exists m, ks_peak FN E_fmv ks_area ks_beta 196 = Ok m /\ PrimFloat.eqb m ks_maxv = true) /\
+  PrimFloat.ltb (peak_of E_fmv (WWin KKaiser 197 ks_area ks_beta))
+                (peak_of E_fmv (WWin KKaiser 196 ks_area ks_beta)) = true /\
+  PrimFloat.leb (peak_of E_fmv (WWin KKaiser 196 ks_area ks_beta)) ks_maxv = true.
+Proof. exact kaiser_from_max_val_exact_hit_refuted. Qed.
+Print Assumptions C16_kaiser_from_max_val_exact_hit_refuted.
 
 (** ** change of duration preserves the defining parameters *)
 Theorem C16_change_duration :
